@@ -126,7 +126,7 @@ func GenDoc(r *Rand, o *DocOpts) Doc {
 				}
 			}
 			if r.Chance(1, 6) {
-				in.Meter = fmt.Sprintf("%d/%d", 1+r.Intn(12), Pick(r, []int{2, 4, 8, 16}))
+				in.Meter = fmt.Sprintf("%d/%d", 1+r.Intn(12), Pick(r, []int{2, 4, 8, 16, 4, 3, 6, 5, 7, 12, 1, 32}))
 			}
 			if r.Chance(1, 5) {
 				in.Key = Pick(r, SupportedKeys)
